@@ -117,7 +117,13 @@ async def check_string(ctx, s: str, cls: str = "replay"):
     if ctx.rng.random() < 0.15:
         # the same string again (after whatever happened in between, a failure included): same verdict
         ctx.count("repeated_calls")
-        again = capture(parse_condition_expression_to_tree, s)
+        if ctx.rng.random() < 0.5:
+            again = capture(parse_condition_expression_to_tree, s)
+        else:
+            # the string passed by keyword, as the signature allows - twice, so that the second call finds the first one's cache entry
+            ctx.count("repeated_calls_by_keyword")
+            capture(parse_condition_expression_to_tree, condition_expression=s)
+            again = capture(parse_condition_expression_to_tree, condition_expression=s)
         judge(ctx, "condition-parser", s, cv, again)
         if first[0] != again[0]:
             ctx.violation("verdict-changes-on-repetition", f"condition-parser({s!r}): first call {describe(first)[:120]}, second call {describe(again)[:120]}")
